@@ -65,7 +65,8 @@ def drive_legacy(tier):
             tx = gen.build_tx(d, mut)
             before = tx.serialize()
             # all 256 hash types for the first shapes; a seeded 24 (plus the named ones) for the rest in quick
-            if tier == "thorough" or si < 8:
+            big = any(len(x_["script"]) > 1000 for x_ in d["vin"] + d["vout"])
+            if (tier == "thorough" or si < 8) and not big:
                 hts = hts_all
             else:
                 hts = sorted(set([0, 1, 2, 3, 4, 0x1f, 0x20, 0x21, 0x22, 0x23, 0x41, 0x42, 0x43, 0x80, 0x81, 0x82, 0x83, 0xa2, 0xc3, 0xe1, 0xff]
@@ -132,7 +133,8 @@ def drive_v0(tier):
         for mut in ((False, True) if si % 4 == 0 else (False,)):
             tx = gen.build_tx(d, mut)
             before = tx.serialize()
-            hts = list(range(256)) if (tier == "thorough" or si < 9) else sorted(set(
+            big = any(len(x_["script"]) > 1000 for x_ in d["vin"] + d["vout"])
+            hts = list(range(256)) if ((tier == "thorough" or si < 9) and not big) else sorted(set(
                 [0, 1, 2, 3, 0x1f, 0x21, 0x22, 0x23, 0x80, 0x81, 0x82, 0x83, 0xff] + [r.randrange(256) for _ in range(6)]))
             for idx in range(len(d["vin"])):
                 code = gen.rbytes(r, CL[(si + idx) % len(CL)])
